@@ -49,6 +49,12 @@ func (e *Engine) inlTarget(x ast.Expr) (*ast.CallExpr, *Func, *types.Func) {
 		// a closure held in a local that is assigned exactly once: interpreted in place like a helper (it shares
 		// the variables it captures with the caller, so nothing has to be renamed)
 		lit, isLit := e.Fn.FuncValue(call.Fun).(*ast.FuncLit)
+		if !isLit {
+			// a func parameter of an inlined helper that was handed a literal: withLock(func() {..}) { ..; fn(); .. }
+			if id, ok := ast.Unparen(call.Fun).(*ast.Ident); ok {
+				lit, isLit = e.boundLits[e.Fn.objOf(id)]
+			}
+		}
 		if !isLit || !e.cfg.InlineClosures {
 			return nil, nil, nil
 		}
@@ -170,7 +176,8 @@ func (e *Engine) binds(call *ast.CallExpr, fn *Func) ([]inlBind, bool) {
 		}
 		b := inlBind{p: p, a: a}
 		direct, rooted := e.writtenIn(fn.Body, o)
-		if stablePath(a) && !direct {
+		_, isConst := e.Fn.constOf(a)
+		if stablePath(a) && !direct && !isConst {
 			if _, isGlobal := e.Fn.globalName(a); !isGlobal || true {
 				b.stable = true
 				b.back = refLike(o.Type()) || !rooted
@@ -240,6 +247,37 @@ func (e *Engine) inline(st *State, call *ast.CallExpr, fn *Func, callee *types.F
 		e.res.Inlined = append(e.res.Inlined, fn.Name)
 	}
 	states := []*State{st.clone(e.Fn.Pos(call.Pos()) + " enter " + callee.Name())}
+	savedLits := map[types.Object]*ast.FuncLit{}
+	for _, b := range binds {
+		// a function literal (or a local holding one) handed to a func parameter: calls of the parameter run it
+		var lit *ast.FuncLit
+		switch t := ast.Unparen(b.a).(type) {
+		case *ast.FuncLit:
+			lit = t
+		case *ast.Ident:
+			lit, _ = e.Fn.FuncValue(t).(*ast.FuncLit)
+			if lit == nil {
+				lit = e.boundLits[e.Fn.objOf(t)]
+			}
+		}
+		if lit != nil {
+			po := e.Fn.objOf(b.p)
+			if e.boundLits == nil {
+				e.boundLits = map[types.Object]*ast.FuncLit{}
+			}
+			savedLits[po] = e.boundLits[po]
+			e.boundLits[po] = lit
+		}
+	}
+	defer func() {
+		for po, old := range savedLits {
+			if old == nil {
+				delete(e.boundLits, po)
+			} else {
+				e.boundLits[po] = old
+			}
+		}
+	}()
 	for _, b := range binds {
 		po := e.Fn.objOf(b.p)
 		var next []*State
